@@ -579,6 +579,35 @@ def run_extract():
     return p.stdout.strip()
 
 
+def run_effects():
+    """regenerate lean/CvssVerif/Generated/Effects.lean from /repo (write-set facts: translator tie of C15/C16);
+    returns the rows that are not what the model assumes (for the report), [] when all is as expected"""
+    src = os.path.join(core.VERIF, "go", "effects")
+    out = os.path.join(core.BUILD, "effects")
+    core.sh(["go", "build", "-o", out, "."], cwd=src, env=core.GOENV, timeout=600)
+    dst = os.path.join(core.LEAN, "CvssVerif", "Generated", "Effects.lean")
+    tmp = dst + ".new"
+    core.sh([out, core.REPO, tmp], env=dict(core.GOENV, GOFLAGS="-mod=mod"), timeout=300)
+    new = open(tmp).read()
+    if not os.path.exists(dst) or open(dst).read() != new:
+        os.replace(tmp, dst)        # (only touched when the facts changed: lake rebuilds nothing otherwise)
+    else:
+        os.remove(tmp)
+    odd = []
+    for line in new.splitlines():
+        line = line.strip()
+        if not line.startswith("(b!"):
+            continue
+        name = line.split('"')[1]
+        tail = line[line.index('", b!"') :]
+        params = tail.split("[")[1].split("]")[0].strip()
+        globs = tail.split("[")[2].split("]")[0].strip()
+        want = "0" if name.endswith(").Decode") else ""
+        if params != want or globs:
+            odd.append("%s may write through parameters [%s] and package-level variables [%s]" % (name, params, globs.replace('b!', '')))
+    return odd
+
+
 import os  # noqa: E402
 
 
@@ -1110,8 +1139,10 @@ def history_facts(hops, results, skip=0):
 class HistoryProp(SimpleProp):
     prop = "C15"
     needs_extract = True
+    needs_effects = True
     lean_modules = ["CvssVerif.Props.C15"]
-    theorems = ["CvssVerif.Props.C15." + t for t in ("queries_are_pure", "repeated_queries", "history_free", "twin")]
+    theorems = ["CvssVerif.Props.C15." + t for t in ("queries_are_pure", "repeated_queries", "history_free", "twin",
+                                                     "code_writes_only_in_decode", "code_effects_cover_model")]
     rule = ("seeded random histories inside one process over pools of 1-8 objects of both versions and all levels: decodes of valid, "
             "invalid and level-mismatched strings (also into used objects), bursts of 1-4 repeated full query sets, views through the "
             "accessors (aliases of the object), report construction in three languages, template export; every operation's result compared "
@@ -1189,8 +1220,10 @@ _reg(HistoryProp())
 class ConcProp:
     prop = "C16"
     needs_extract = True
+    needs_effects = True
     lean_modules = ["CvssVerif.Props.C16"]
-    theorems = ["CvssVerif.Props.C16." + t for t in ("cvss_disciplined", "interleaving_eq_sequential", "shared_unchanged")]
+    theorems = ["CvssVerif.Props.C16." + t for t in ("cvss_disciplined", "interleaving_eq_sequential", "shared_unchanged",
+                                                     "no_shared_state_written")]
     trusted_base = TB_COMMON + ["the Go race detector (harness built with -race) for the absence of data races on the executed schedules"]
     assumptions = ["PARTIAL: the Go memory model and scheduler are not modelled; the theorem covers all interleavings of the abstract "
                    "operations, the race detector and the concurrent-vs-sequential comparison cover the schedules that actually ran",
